@@ -261,9 +261,9 @@ def ee_body(ctx, case):
 
 
 LAWS = [
-    given_law("binning", bin_cases(), bin_body, {"quick": 600, "thorough": 4000}),
-    given_law("zoom", zoom_cases(), zoom_body, {"quick": 400, "thorough": 2500}),
+    given_law("binning", bin_cases(), bin_body, {"quick": 600, "thorough": 10000}, shards={"quick": 3, "thorough": 16}),
+    given_law("zoom", zoom_cases(), zoom_body, {"quick": 400, "thorough": 6250}, shards={"quick": 3, "thorough": 16}),
     given_law("zoom_bad_order", st.fixed_dictionaries({"order": st.sampled_from([0, 2, 4, 6, -1])}), zoom_badorder_body, {"quick": 10, "thorough": 10}, shards={"quick": 1, "thorough": 1}),
-    given_law("azimuthal", azi_cases(), azi_body, {"quick": 400, "thorough": 2500}),
-    given_law("encircled", ee_cases(), ee_body, {"quick": 300, "thorough": 2000}),
+    given_law("azimuthal", azi_cases(), azi_body, {"quick": 400, "thorough": 6250}, shards={"quick": 3, "thorough": 16}),
+    given_law("encircled", ee_cases(), ee_body, {"quick": 300, "thorough": 5000}, shards={"quick": 3, "thorough": 16}),
 ]
